@@ -2337,13 +2337,12 @@ static int32_t tls13ParseNewSessionTicket(ssl_t *ssl, psParseBuf_t *pb)
     }
     else
     {
-        ssl->sid = psMalloc(ssl->hsPool, sizeof(sslSessionId_t));
-        if (ssl->sid == NULL)
-        {
-            goto out_internal_error;
-        }
-        Memset(ssl->sid, 0, sizeof(sslSessionId_t));
-        ssl->sid->pool = ssl->hsPool;
+        /* The application did not provide a session ID structure to
+           matrixSslNewClientSession, so there is nowhere to hand the
+           ticket over to it. (A structure allocated here was never
+           released.) The PSK itself stays in the session context. */
+        rc = PS_SUCCESS;
+        goto do_free;
     }
 # ifdef USE_STATELESS_SESSION_TICKETS
     ssl->sid->sessionTicket = psMalloc(ssl->sid->pool, ticketLen);
